@@ -1134,6 +1134,30 @@ func c17Placeholders(c *Ctx) {
 			ok = carries && okPass && rc.Call.Args[1] == ssa.Value(vi.Params[1])
 		}
 		c.Check(ok, "O17.7", fk(vi)+":resolver-error-fails-decoding", vi.Pos(), "VariableInjectHook returns the error of ResolveCustomTags(str, targetType) and passes the string through unchanged only on ErrNoTagsFound")
+		// what the hook hands on is the input itself or what ResolveCustomTags made of it for this target type in this
+		// call: a value remembered from another field (a cache keyed by the placeholder text) was cast for that field's
+		// type and resolved from that moment's environment
+		if rc != nil {
+			okVal := true
+			bad := ""
+			for _, b := range vi.Blocks {
+				r, isR := b.Instrs[len(b.Instrs)-1].(*ssa.Return)
+				if !isR || len(r.Results) < 2 {
+					continue
+				}
+				for _, root := range Roots(r.Results[0], false) {
+					if root == ssa.Value(vi.Params[2]) {
+						continue
+					}
+					if ex, isEx := root.(*ssa.Extract); isEx && ex.Tuple == ssa.Value(rc) && ex.Index == 0 {
+						continue
+					}
+					okVal = false
+					bad = root.String() + " at " + P.Pos(r.Pos())
+				}
+			}
+			c.Check(okVal, "O17.7", fk(vi)+":resolved-value-is-made-in-this-call", vi.Pos(), "every value VariableInjectHook returns is its input or the result of ResolveCustomTags(str, targetType) of this call; other source: "+bad)
+		}
 	}
 	// ResolveCustomTags: resolver error returned
 	if rt := P.Func("lib/confutil", "", "ResolveCustomTags"); rt != nil {
